@@ -2761,6 +2761,17 @@ def _helper_refs_to_lambdas(fn: ast.FunctionDef, inliner: "HelperInliner") -> No
             return None
         mf = inliner._module_func(name)
         if mf is None:
+            # `_pick = attrgetter("node")` / `itemgetter(0)` at module level: the same thing as `lambda x: x.node` / `lambda x: x[0]`
+            for st in inliner.tree.body:
+                if isinstance(st, ast.Assign) and len(st.targets) == 1 and isinstance(st.targets[0], ast.Name) and st.targets[0].id == name and isinstance(st.value, ast.Call) \
+                        and len(st.value.args) == 1 and not st.value.keywords and isinstance(st.value.args[0], ast.Constant):
+                    fn_ = (dotted(st.value.func) or "").split(".")[-1]
+                    k = st.value.args[0].value
+                    args = ast.arguments(posonlyargs=[], args=[ast.arg(arg="_x")], vararg=None, kwonlyargs=[], kw_defaults=[], kwarg=None, defaults=[])
+                    if fn_ == "attrgetter" and isinstance(k, str) and k.isidentifier():
+                        return ast.Lambda(args=args, body=ast.Attribute(value=ast.Name(id="_x", ctx=ast.Load()), attr=k, ctx=ast.Load()))
+                    if fn_ == "itemgetter" and isinstance(k, (int, str)):
+                        return ast.Lambda(args=args, body=ast.Subscript(value=ast.Name(id="_x", ctx=ast.Load()), slice=ast.Constant(value=k), ctx=ast.Load()))
             return None
         d = mf[0]
         body = [st for st in d.body if not (isinstance(st, ast.Expr) and isinstance(st.value, ast.Constant) and isinstance(st.value.value, str))]
